@@ -48,10 +48,9 @@ def cargo_build(package, release=False, features=None, no_default=False, extra_e
     env = dict(ENV)
     if extra_env:
         env.update(extra_env)
-    if not target_dir and 'VERIF_BUILD' in os.environ:
-        target_dir = os.path.join(BUILD, 'target')
-    if target_dir:
-        env['CARGO_TARGET_DIR'] = target_dir
+    # always explicit, so that a copy of /verif elsewhere (vp run snapshot, scratch harness) builds into its own .build
+    target_dir = target_dir or os.path.join(BUILD, 'target')
+    env['CARGO_TARGET_DIR'] = target_dir
     t0 = time.time()
     p = subprocess.run(cmd, cwd=cwd, env=env, stdout=subprocess.PIPE, stderr=subprocess.PIPE, text=True)
     log(f'[build] {" ".join(cmd)} -> {p.returncode} in {time.time() - t0:.1f}s')
